@@ -24,9 +24,10 @@ package note
 //@   ensures strings.Index(s, sep) < 0 ==> before == s && after == ""
 //@   ensures strings.Index(s, sep) >= 0 ==> before == s[:strings.Index(s, sep)] && after == s[strings.Index(s, sep)+len(sep):]
 //@   props C07
+//@ # "A Verifier's name must be non-empty and not have any Unicode spaces or pluses" (and be valid UTF-8)
 //@ func isValidName
 //@   pure
-//@   trusted "non-empty, valid UTF-8, no Unicode space, no '+' (strings.IndexFunc with unicode.IsSpace): an uninterpreted predicate of the name here"
+//@   ensures [C07] name_rule: result == (name != "" && utf8.ValidString(name) && !HASSPACE(name) && !strings.Contains(name, "+"))
 //@   props C07
 //@ func VerifierList
 //@   allocates
@@ -49,11 +50,21 @@ package note
 //@ # was verified by a verifier that `known` has for that line's key
 //@ spec func SIGNEDTEXT(known Verifiers, m string, x string) bool = ISTEXTOF(x, m) && (exists s Signature :: SIGOK(known, s, x))
 
+//@ # some signature among A[o .. o+m) has this name and key hash
+//@ spec func LISTED(A SignatureArr, o int, m int, nm string, h uint32) bool decreases m =
+//@     m > 0 && ((A[o + m - 1].Name == nm && A[o + m - 1].Hash == h) || LISTED(A, o, m - 1, nm, h))
+//@ lemma listed_ext(A SignatureArr, o int, B SignatureArr, o2 int, m int, nm string, h uint32)
+//@   requires m >= 0 && (forall p int {B[p]} :: o2 <= p && p < o2 + m ==> B[p] == A[p - o2 + o]) && LISTED(A, o, m, nm, h)
+//@   ensures LISTED(B, o2, m, nm, h)
+//@   induction m
+//@   trigger LISTED(A, o, m, nm, h), LISTED(B, o2, m, nm, h)
+//@   props C07
+
 //@ func Open
 //@   let KNOWN Verifiers = known @before loop 1
 //@   ensures [C07] verified_over_text: result1 == nil ==> result0 != nil && len(result0.Sigs) >= 1 && ISTEXTOF(result0.Text, string(msg))
 //@   ensures [C07] every_listed_signature_checked: result1 == nil ==> (forall k int :: 0 <= k && k < len(result0.Sigs) ==> SIGOK(KNOWN, result0.Sigs[k], result0.Text))
-//@   ensures [C07, C01, C13] signed_text: result1 == nil ==> (known != nil ==> SIGNEDTEXT(known, string(msg), result0.Text))
+//@   ensures [C07, C01, C13] signed_text: result1 == nil ==> (known != nil ==> SIGOK(known, result0.Sigs[0], result0.Text) && SIGNEDTEXT(known, string(msg), result0.Text))
 //@   # a signature is listed as unverified only when its key is unknown (any other lookup error makes Open fail)
 //@   ensures [C07] unverified_means_unknown: result1 == nil ==> (forall k int :: 0 <= k && k < len(result0.UnverifiedSigs) ==> typeof(KE(KNOWN, result0.UnverifiedSigs[k].Name, result0.UnverifiedSigs[k].Hash)) == typeid("*UnknownVerifierError"))
 //@   loop 0:
@@ -64,10 +75,17 @@ package note
 //@     invariant fresh(n) && fresharr(n.Sigs) && fresharr(n.UnverifiedSigs) && oldarrays_kept(n.Sigs)
 //@     invariant cap(n.Sigs) == 0 || cap(n.UnverifiedSigs) == 0 || !samearr(n.Sigs, n.UnverifiedSigs)
 //@     invariant len(sigs) > 0 ==> sigs[len(sigs)-1] == '\n'
-//@     invariant n.Text == string(text) && ISTEXTOF(n.Text, string(msg))
+//@     invariant n.Text == string(text)
+//@     invariant len(text) >= 1 && len(text) + 1 <= len(msg) && msg[len(text)-1] == '\n' && msg[len(text)] == '\n'
+//@     invariant ISTEXTOF(n.Text, string(msg))
 //@     invariant forall k int {n.Sigs[k]} :: 0 <= k && k < len(n.Sigs) ==> SIGOK(known, n.Sigs[k], n.Text)
 //@     invariant forall k int {n.UnverifiedSigs[k]} :: 0 <= k && k < len(n.UnverifiedSigs) ==> typeof(KE(known, n.UnverifiedSigs[k].Name, n.UnverifiedSigs[k].Hash)) == typeid("*UnknownVerifierError")
+//@     # a key is marked as seen only when a verified signature by exactly that (name, key hash) is listed, and the
+//@     # line just processed, if its key is known, is listed: no known key's signature is skipped unverified
+//@     invariant [C07] seen_are_listed: forall nm string, h uint32 {seen[mk("nameHash", nm, h)]} :: has(seen, mk("nameHash", nm, h)) && seen[mk("nameHash", nm, h)] ==> LISTED(arr(n.Sigs), off(n.Sigs), len(n.Sigs), nm, h)
+//@     invariant [C07] known_line_is_listed: numSig >= 1 && err == nil ==> LISTED(arr(n.Sigs), off(n.Sigs), len(n.Sigs), name, hash)
 //@     decreases len(sigs)
+//@   uses listed_ext
 //@   props C07 C01 C13
 
 //@ # ---------- Sign: every new signature is made over exactly the note text, and the message starts with it ----------
